@@ -62,6 +62,10 @@ def build_input(rng, idx):
     lines += ["", "class _S(type):", "    def __call__(c, *a, **k): return None", "    def __getattr__(c, n):",
               "        if n.startswith('__'): raise AttributeError(n)", "        return _S(n, (), {})",
               "np = _S('np', (), {})", "torch = _S('torch', (), {})", "def make_thing(*a): return None", ""]
+    late_import = rng.random() < 0.5
+    if late_import:
+        # imports are not always one block at the head of a module: one more after other statements
+        lines += ["import json as zq_late_json", "from collections import OrderedDict as ZqLateOrderedDict", ""]
     names, expect, kinds = [], {}, []
     for j in range(n):
         is_class = rng.random() < 0.6
@@ -111,7 +115,7 @@ def build_input(rng, idx):
     obj_kind = {k: ("class" if n.startswith("Klass") else "function") for k, n in zip(keys, names)}
     names = keys
     lines.append("")
-    feats = {"n_entries": n, "n_import_lines": n_imp, "annotated": annotated, "entry_kinds": sorted(set(kinds)),
+    feats = {"n_entries": n, "n_import_lines": n_imp, "import_after_other_statements": late_import, "annotated": annotated, "entry_kinds": sorted(set(kinds)),
              "has_function_entry": "function" in kinds, "has_class_entry": "class" in kinds,
              "any_params": any(expect.values()), "aliased_keys": alias, "obj_kind": obj_kind, "mapping_form": form,
              "future_import": future,
